@@ -77,6 +77,42 @@ class VLoop(asyncio.BaseEventLoop):
     def _write_to_self(self) -> None:  # call_soon_threadsafe: nothing to wake up
         pass
 
+    def run_in_executor(self, executor: Any, func: Any, *args: Any) -> Any:  # type: ignore[override]
+        """Synchronous handlers "run in a thread": here, deterministically, a thread is a future that cannot be cancelled
+        and completes after the virtual duration the function declares (`__kv_duration__`, found through the partials kopf
+        wraps it in). Its body runs, in one go, at the instant of completion; `on_sync_start` lets the harness log the start."""
+        fut = self.create_future()
+        base = func
+        for _ in range(6):
+            if hasattr(base, '__kv_duration__'):
+                break
+            inner = getattr(base, 'args', ())
+            if getattr(base, 'func', None) is not None and inner and callable(inner[0]) and getattr(base.func, '__name__', '') == 'run':
+                base = inner[0]          # partial(context.run, fn)
+            elif getattr(base, 'func', None) is not None:
+                base = base.func
+            else:
+                break
+        duration = float(getattr(base, '__kv_duration__', 0.0) or 0.0)
+        hook = getattr(base, '__kv_on_start__', None)
+        if hook is not None:
+            hook()
+
+        def complete() -> None:
+            if fut.done():
+                return
+            try:
+                fut.set_result(func(*args))
+            except BaseException as e:     # noqa: the "thread" ended with an exception
+                if isinstance(e, (KeyboardInterrupt, SystemExit)):
+                    raise
+                fut.set_exception(e)
+        self.call_later(duration, complete)
+        real_cancel = fut.cancel
+        fut.cancel = lambda *a, **k: False      # type: ignore[method-assign]   # a running thread cannot be cancelled
+        fut._kv_real_cancel = real_cancel        # type: ignore[attr-defined]
+        return fut
+
     def _factory(self, loop: Any, coro: Any, **kw: Any) -> VTask:
         seq = self._task_seq
         self._task_seq += 1
